@@ -21,6 +21,8 @@ K6 = [
      "what": "LONGITUDE_OFFSET, constants.rs, pentagon angles A..E and the 12 QUATERNIONS bit-identical to the reference release"},
     {"file": "k6_hilbert.rs", "harness": "k6_hilbert_tables", "kind": "closed-term",
      "what": "PATTERN, PATTERN_FLIPPED, YES/NO, quaternary_to_flips (4 cases), FLIP_SHIFT equal the reference; reverse_pattern gives the inverse permutation"},
+    {"file": "k6_hilbert.rs", "harness": "k6_shift_digits_table", "kind": "full-domain",
+     "what": "real shift_digits equals the reference release's truth table for all 4x4 digit pairs x 4 flip states x invert_j x both patterns (complete)"},
     {"file": "k6_hilbert.rs", "harness": "k6_quaternary_to_kj", "kind": "closed-term",
      "what": "quaternary_to_kj(n, flips) equals the reference for all 4 digits x 4 flip states"},
 ] + [
@@ -235,7 +237,13 @@ PROPS = {
             "precondition origin_id < 12 on get_spherical_triangle (derived from its callers; with origin_id in 12..23 the slot index "
             "collides with a reflected slot - not reachable through the public API)",
         ],
-        "search_ops": [],
+        "bounded_ops": [
+            {"op": "purity", "budget": 400, "timeout": 900, "what": "whole public API, BOUNDED stand-in for the sentences no contract here can "
+             "decide: several hundred lonlat_to_cell / cell_to_lonlat / cell_to_boundary / get_num_cells / cell_area calls give "
+             "bit-identical answers as the first call of a fresh thread, after the other calls in the same thread (call, reverse and "
+             "shuffled order) and in fresh threads after other threads used the library"},
+        ],
+        "search_ops": ["purity"],
         "level_text": "Proof (Verus/Z3) on the real get_face_triangle and get_spherical_triangle (&mut self, Vec<Option<_>> caches): "
                       "representation invariant 'every filled slot holds the value of its own key' is preserved, the result equals "
                       "spec(key) whatever the cache contents (history independence on one thread), and only the call's own slot changes.",
@@ -294,6 +302,13 @@ PROPS = {
         "assumptions": STD_ASSUME + [
             "ONLY sentence 2 ('the per-resolution area reported by the metadata call equals sphere area / number of cells') is decided; "
             "areas measured from cell boundaries (sentence 1) are f64 geometry and NOT decided",
+        ],
+        "bounded_ops": [
+            {"op": "cell_area", "budget": 1, "what": "through the crate-root export a5::cell_area, resolutions -5..40 in descending, random "
+             "and ascending order: finite, positive, and for 0..29 equal to AUTHALIC_AREA / N(r) to 1e-12 (bounded cross-check of the "
+             "public path; the proofs above are on core::cell_info)"},
+            {"op": "get_num_cells", "budget": 1, "what": "through the crate-root export a5::get_num_cells, same orders: 12, 60*4^(r-1) "
+             "(exact to r = 27, 1e-15 relative for 28/29), 0 for negative r, no panic"},
         ],
         "search_ops": ["cell_area", "get_num_cells"],
         "level_text": "Verus: the real get_num_cells returns 12, 60*4^(r-1) exactly for r <= 27 and values within 1e-15 relative for the "
